@@ -23,41 +23,41 @@ def P(rule, monitors, inproc=None, cells=None, extra_assume=None, evaluations=10
 
 
 PLANS = {
-    "C06": P("every value of the hostile corpus V (+ truthiness corner values) and seeded random values (depth <= 3) is placed in 16 deciding positions (!!, !, if, ?:, second if-condition, and, or, all/some/none over literal and computed collections, filter, map, reduce) through up to 5 routes (literal, var, if-result, merge/cat result, var default); each observation is judged against the table, against the reference model, and all positions must agree. Non-trivial = the value is a corner value (null, booleans, zero-like numbers, empty / blank / '0' strings, arrays of length <= 1, objects); distinct by value text. Every run ends with a size ladder: the same monitors at sizes 6..5000 around powers of two (operand counts, collection / string / key-list lengths, deciding positions first / middle / last, nesting depths, digit counts).",
+    "C06": P("every value of the hostile corpus V (+ truthiness corner values) and seeded random values (depth <= 3) is placed in 16 deciding positions (!!, !, if, ?:, second if-condition, and, or, all/some/none over literal and computed collections, filter, map, reduce) through up to 5 routes (literal, var, if-result, merge/cat result, var default); each observation is judged against the table, against the reference model, and all positions must agree. Non-trivial = the value is a corner value (null, booleans, zero-like numbers, empty / blank / '0' strings, arrays of length <= 1, objects); distinct by value text. Every run ends with a size ladder: the same monitors at sizes 6..5000 around powers of two (operand counts, collection / string / key-list lengths, deciding positions first / middle / last, nesting depths, digit counts), and where the property has them far ladders (operand / element counts around 2^15 .. 2^17, nesting depths 128 .. 5000 on a thread with a 1 GiB stack, literals of 8 192 .. 70 000 digits, results beyond 16 MiB).",
              ["c06.table", "c06.consistency", "c06.model"], cells=["pos:filter", "pos:none-lit", "type:array:false", "type:object:true"]),
-    "C07": P("ordered pairs (a, b): the full square of the corpus V, the numeric-string grammar corpus S against every number / null / booleans / small arrays, and seeded random pairs (related by string form, numeric string with white space, wrapping); each pair is evaluated with operands obtained through var, as literals and through the js_op helpers; judged against ECMAScript abstract equality (reference model), symmetry, negation, helper = operator. Non-trivial = the two operands differ in text and are not (null, non-null); distinct by pair text. Every run ends with a size ladder: the same monitors at sizes 6..5000 around powers of two (operand counts, collection / string / key-list lengths, deciding positions first / middle / last, nesting depths, digit counts).",
+    "C07": P("ordered pairs (a, b): the full square of the corpus V, the numeric-string grammar corpus S against every number / null / booleans / small arrays, and seeded random pairs (related by string form, numeric string with white space, wrapping); each pair is evaluated with operands obtained through var, as literals and through the js_op helpers; judged against ECMAScript abstract equality (reference model), symmetry, negation, helper = operator. Non-trivial = the two operands differ in text and are not (null, non-null); distinct by pair text. Every run ends with a size ladder: the same monitors at sizes 6..5000 around powers of two (operand counts, collection / string / key-list lengths, deciding positions first / middle / last, nesting depths, digit counts), and where the property has them far ladders (operand / element counts around 2^15 .. 2^17, nesting depths 128 .. 5000 on a thread with a 1 GiB stack, literals of 8 192 .. 70 000 digits, results beyond 16 MiB).",
              ["c07.model", "c07.symmetry", "c07.negation", "c07.helper"],
              cells=["string==number:true", "array==string:true", "bool==string:true", "object==string:true", "null==null:true", "number==array:true"]),
-    "C08": P("ordered pairs as in C07 plus the square of 20 number spellings (1 / 1.0 / 1e0 / 10e-1, +-0, integers around 2^53 and 2^63 in i64 / u64 / double spelling); operands obtained through var (including the same data slot on both sides), as literals and through the helpers; judged against strict equality with distinct instances, negation, symmetry, '=== implies =='. Non-trivial = both operands of the same JSON type or both numbers; distinct by pair text. Every run ends with a size ladder: the same monitors at sizes 6..5000 around powers of two (operand counts, collection / string / key-list lengths, deciding positions first / middle / last, nesting depths, digit counts).",
+    "C08": P("ordered pairs as in C07 plus the square of 20 number spellings (1 / 1.0 / 1e0 / 10e-1, +-0, integers around 2^53 and 2^63 in i64 / u64 / double spelling); operands obtained through var (including the same data slot on both sides), as literals and through the helpers; judged against strict equality with distinct instances, negation, symmetry, '=== implies =='. Non-trivial = both operands of the same JSON type or both numbers; distinct by pair text. Every run ends with a size ladder: the same monitors at sizes 6..5000 around powers of two (operand counts, collection / string / key-list lengths, deciding positions first / middle / last, nesting depths, digit counts), and where the property has them far ladders (operand / element counts around 2^15 .. 2^17, nesting depths 128 .. 5000 on a thread with a 1 GiB stack, literals of 8 192 .. 70 000 digits, results beyond 16 MiB).",
              ["c08.model", "c08.symmetry", "c08.negation", "c08.helper", "c08.implies-eq"],
              cells=["number===number:true", "array===array:false", "object===object:false", "string===string:true"]),
-    "C09": P("ordered pairs as in C07 for <, <=, >, >= (both operand orders are in the square), triples from a 40-value sub-corpus for the between form, seeded random pairs / triples; judged against ECMAScript relational comparison (reference model), the mirror laws a>b = b<a and a>=b = b<=a, between = conjunction, helper = operator. Non-trivial = the pair is neither < nor == by the implementation's own helpers, or is of mixed type; distinct by pair / triple text. Every run ends with a size ladder: the same monitors at sizes 6..5000 around powers of two (operand counts, collection / string / key-list lengths, deciding positions first / middle / last, nesting depths, digit counts).",
+    "C09": P("ordered pairs as in C07 for <, <=, >, >= (both operand orders are in the square), triples from a 40-value sub-corpus for the between form, seeded random pairs / triples; judged against ECMAScript relational comparison (reference model), the mirror laws a>b = b<a and a>=b = b<=a, between = conjunction, helper = operator. Non-trivial = the pair is neither < nor == by the implementation's own helpers, or is of mixed type; distinct by pair / triple text. Every run ends with a size ladder: the same monitors at sizes 6..5000 around powers of two (operand counts, collection / string / key-list lengths, deciding positions first / middle / last, nesting depths, digit counts), and where the property has them far ladders (operand / element counts around 2^15 .. 2^17, nesting depths 128 .. 5000 on a thread with a 1 GiB stack, literals of 8 192 .. 70 000 digits, results beyond 16 MiB).",
              ["c09.model", "c09.mirror", "c09.between", "c09.helper"],
              cells=["lte-true-but-neither-lt-nor-eq", "between<:true", "between>=:true", "string<string:true", "array<=array:true"]),
-    "C10": P("operand tuples of length 0..5 for + - * / % min max: all ordered pairs of an operand pool (number corpus incl. 2^53, 2^63, 2^64 neighbourhoods, 5e-324 .. 1.8e308; numeric-string spellings; null / booleans / arrays / objects), the numeric-string grammar corpus S as single operands and inside arrays, and seeded random tuples aimed at results landing on / around 2^53, 2^63, 2^64, overflow and underflow; the result must be bit-identical (as a double, and exactly as an integer) to the reference computation, spelled as a JSON integer when integral below 2^63, and an error exactly when an operand is non-numeric or the result is not finite. Non-trivial = an operand needs conversion, or the result is beyond 2^53, subnormal, or an error; distinct by (rule, operands) text. Every run ends with a size ladder: the same monitors at sizes 6..5000 around powers of two (operand counts, collection / string / key-list lengths, deciding positions first / middle / last, nesting depths, digit counts).",
+    "C10": P("operand tuples of length 0..5 for + - * / % min max: all ordered pairs of an operand pool (number corpus incl. 2^53, 2^63, 2^64 neighbourhoods, 5e-324 .. 1.8e308; numeric-string spellings; null / booleans / arrays / objects), the numeric-string grammar corpus S as single operands and inside arrays, and seeded random tuples aimed at results landing on / around 2^53, 2^63, 2^64, overflow and underflow; the result must be bit-identical (as a double, and exactly as an integer) to the reference computation, spelled as a JSON integer when integral below 2^63, and an error exactly when an operand is non-numeric or the result is not finite. Non-trivial = an operand needs conversion, or the result is beyond 2^53, subnormal, or an error; distinct by (rule, operands) text. Every run ends with a size ladder: the same monitors at sizes 6..5000 around powers of two (operand counts, collection / string / key-list lengths, deciding positions first / middle / last, nesting depths, digit counts), and where the property has them far ladders (operand / element counts around 2^15 .. 2^17, nesting depths 128 .. 5000 on a thread with a 1 GiB stack, literals of 8 192 .. 70 000 digits, results beyond 16 MiB).",
              ["c10.model", "c10.result-shape"],
              cells=["+:integral>=2^63", "*:integral>=2^63", "-:error", "/:error", "%:error", "min:integral-small", "max:fractional", "+:subnormal"]),
-    "C15": P("merge: operand lists of length 0..6 over scalars, arrays, nested arrays, objects (exhaustive pairs over a shape corpus, then random); in: the square of 20 number spellings wrapped at depth 0..2 in arrays / objects, objects with permuted key order, V against 12 haystacks, all substrings over a 5-character multi-byte alphabet, random (needle re-spelled from a member of the haystack). Judged against the reference model and the length / order law of merge. Non-trivial = merge with a nested array operand; in with a container needle or a number needle in an array haystack; distinct by (rule, data) text. Every run ends with a size ladder: the same monitors at sizes 6..5000 around powers of two (operand counts, collection / string / key-list lengths, deciding positions first / middle / last, nesting depths, digit counts).",
+    "C15": P("merge: operand lists of length 0..6 over scalars, arrays, nested arrays, objects (exhaustive pairs over a shape corpus, then random); in: the square of 20 number spellings wrapped at depth 0..2 in arrays / objects, objects with permuted key order, V against 12 haystacks, all substrings over a 5-character multi-byte alphabet, random (needle re-spelled from a member of the haystack). Judged against the reference model and the length / order law of merge. Non-trivial = merge with a nested array operand; in with a container needle or a number needle in an array haystack; distinct by (rule, data) text. Every run ends with a size ladder: the same monitors at sizes 6..5000 around powers of two (operand counts, collection / string / key-list lengths, deciding positions first / middle / last, nesting depths, digit counts), and where the property has them far ladders (operand / element counts around 2^15 .. 2^17, nesting depths 128 .. 5000 on a thread with a 1 GiB stack, literals of 8 192 .. 70 000 digits, results beyond 16 MiB).",
              ["c15.merge.model", "c15.merge.length", "c15.in.model"],
              cells=["merge:nested-array-operand", "in:true-through-different-spelling", "in:string-in-string:true", "in:err:*"]),
-    "C16": P("substr: all strings of length 0..3 (quick) / 0..4 (thorough) over the alphabet [a, e-acute (2 bytes), CJK (3 bytes), emoji (4 bytes), combining mark] x start in -10..10 and the 64-bit extremes x length absent / -10..10 / extremes, plus random strings of length 5..8; judged against the character-based reference model, the split/recombine law, the negative-start = suffix law and contiguity. cat: operand lists of length 0..5 from V incl. nested arrays with nulls; judged against the reference string forms and 'pieces = at once'. Non-trivial = substr on a string with a multi-byte character with start != 0 or a length; cat with a non-string operand; distinct by rule text. Every run ends with a size ladder: the same monitors at sizes 6..5000 around powers of two (operand counts, collection / string / key-list lengths, deciding positions first / middle / last, nesting depths, digit counts).",
+    "C16": P("substr: all strings of length 0..3 (quick) / 0..4 (thorough) over the alphabet [a, e-acute (2 bytes), CJK (3 bytes), emoji (4 bytes), combining mark] x start in -10..10 and the 64-bit extremes x length absent / -10..10 / extremes, plus random strings of length 5..8; judged against the character-based reference model, the split/recombine law, the negative-start = suffix law and contiguity. cat: operand lists of length 0..5 from V incl. nested arrays with nulls; judged against the reference string forms and 'pieces = at once'. Non-trivial = substr on a string with a multi-byte character with start != 0 or a length; cat with a non-string operand; distinct by rule text. Every run ends with a size ladder: the same monitors at sizes 6..5000 around powers of two (operand counts, collection / string / key-list lengths, deciding positions first / middle / last, nesting depths, digit counts), and where the property has them far ladders (operand / element counts around 2^15 .. 2^17, nesting depths 128 .. 5000 on a thread with a 1 GiB stack, literals of 8 192 .. 70 000 digits, results beyond 16 MiB).",
              ["c16.substr.model", "c16.substr.split-recombine", "c16.substr.suffix", "c16.substr.contiguous", "c16.cat.model", "c16.cat.pieces"],
              cells=["substr:start=neg:len=neg:multibyte", "substr:start=pos:len=absent:multibyte", "cat:operand:array", "cat:operand:null"]),
-    "C02": P("literals: every non-rule value of V, the empty object, single-key objects whose key is a near miss of each of the 35 operator names (14 derivations: surrounding space / tab / NBSP / BOM / NUL, case variants, prefix, suffix, truncation, doubled last character, Unicode look-alikes), two-key objects for every ordered pair of operator keys, arrays / objects holding operation-shaped members (log probes, poisoned operations) - each against 8 data values in which the embedded keys resolve; the result must be the value itself (text-identical) with no log line. Dispatch: one distinguishing operand tuple per operator (the model's result under that operator differs from its result under every other operator). Plus random literal-heavy rule trees. Non-trivial = the literal has an operation-shaped member, a near-miss key or several keys, or the case is a dispatch tuple; distinct by value text. Every run ends with a size ladder: the same monitors at sizes 6..5000 around powers of two (operand counts, collection / string / key-list lengths, deciding positions first / middle / last, nesting depths, digit counts).",
+    "C02": P("literals: every non-rule value of V, the empty object, single-key objects whose key is a near miss of each of the 35 operator names (14 derivations: surrounding space / tab / NBSP / BOM / NUL, case variants, prefix, suffix, truncation, doubled last character, Unicode look-alikes), two-key objects for every ordered pair of operator keys, arrays / objects holding operation-shaped members (log probes, poisoned operations) - each against 8 data values in which the embedded keys resolve; the result must be the value itself (text-identical) with no log line. Dispatch: one distinguishing operand tuple per operator (the model's result under that operator differs from its result under every other operator). Plus random literal-heavy rule trees. Non-trivial = the literal has an operation-shaped member, a near-miss key or several keys, or the case is a dispatch tuple; distinct by value text. Every run ends with a size ladder: the same monitors at sizes 6..5000 around powers of two (operand counts, collection / string / key-list lengths, deciding positions first / middle / last, nesting depths, digit counts), and where the property has them far ladders (operand / element counts around 2^15 .. 2^17, nesting depths 128 .. 5000 on a thread with a 1 GiB stack, literals of 8 192 .. 70 000 digits, results beyond 16 MiB).",
              ["c02.identity", "c02.model", "c02.dispatch"], cells=["literal:near-miss-key", "literal:two-operator-keys", "literal:array-with-operation-member", "dispatch:distinguishing-tuple", "quantifier-literal-array-elements"]),
-    "C03": P("exhaustive over 35 operators x operand counts 0..6 x {a type-valid tuple, 8 (quick) / 200 (thorough) random tuples from V} x 4 data values: a count outside the documented set must be an error for every tuple, a documented count with type-valid operands must be accepted, and every outcome must equal the reference model's (surplus operands ignored or defaults invented would show as value differences); bracket-less form: {op: x} against {op: [x]} for every operator and every non-array value of V and for operation-shaped x (outcome and log trace must be equal). Non-trivial = every (operator, count, form) cell; distinct cells counted. Every run ends with a size ladder: the same monitors at sizes 6..5000 around powers of two (operand counts, collection / string / key-list lengths, deciding positions first / middle / last, nesting depths, digit counts).",
+    "C03": P("exhaustive over 35 operators x operand counts 0..6 x {a type-valid tuple, 8 (quick) / 200 (thorough) random tuples from V} x 4 data values: a count outside the documented set must be an error for every tuple, a documented count with type-valid operands must be accepted, and every outcome must equal the reference model's (surplus operands ignored or defaults invented would show as value differences); bracket-less form: {op: x} against {op: [x]} for every operator and every non-array value of V and for operation-shaped x (outcome and log trace must be equal). Non-trivial = every (operator, count, form) cell; distinct cells counted. Every run ends with a size ladder: the same monitors at sizes 6..5000 around powers of two (operand counts, collection / string / key-list lengths, deciding positions first / middle / last, nesting depths, digit counts), and where the property has them far ladders (operand / element counts around 2^15 .. 2^17, nesting depths 128 .. 5000 on a thread with a 1 GiB stack, literals of 8 192 .. 70 000 digits, results beyond 16 MiB).",
              ["c03.arity", "c03.unary-form", "c03.model"], cells=["arity:<:4:err", "arity:var:3:err", "arity:!!:2:err", "arity:reduce:3:ok", "arity:if:0:ok", "unary-form:var:ok", "unary-form:==:err"]),
-    "C04": P("10 operation-shaped marker values ({log: LEAK-n}, {var: secret}, poisoned operations ...) planted in data and routed through 40 channels by which a data / default / computed value reaches an operator (var incl. defaults, if / and / or results, map / filter / reduce elements, accumulator and initial value, all / some / none over computed vs literal collections, merge, cat, comparisons, key lists read from data), each also nested in an eager and a lazy context; random rule trees over random data trees with markers at 45% of the leaves. Monitors: reference-model value + log-trace judge (each probe exactly as often as predicted), a model-free leak monitor (a rule without any log printed a line), and the substitution law for the 22 eager operators (operands replaced by references to their precomputed values). Non-trivial = every case (all carry markers or substituted operands); distinct by (rule, data) text. Every run ends with a size ladder: the same monitors at sizes 6..5000 around powers of two (operand counts, collection / string / key-list lengths, deciding positions first / middle / last, nesting depths, digit counts).",
+    "C04": P("10 operation-shaped marker values ({log: LEAK-n}, {var: secret}, poisoned operations ...) planted in data and routed through 40 channels by which a data / default / computed value reaches an operator (var incl. defaults, if / and / or results, map / filter / reduce elements, accumulator and initial value, all / some / none over computed vs literal collections, merge, cat, comparisons, key lists read from data), each also nested in an eager and a lazy context; random rule trees over random data trees with markers at 45% of the leaves. Monitors: reference-model value + log-trace judge (each probe exactly as often as predicted), a model-free leak monitor (a rule without any log printed a line), and the substitution law for the 22 eager operators (operands replaced by references to their precomputed values). Non-trivial = every case (all carry markers or substituted operands); distinct by (rule, data) text. Every run ends with a size ladder: the same monitors at sizes 6..5000 around powers of two (operand counts, collection / string / key-list lengths, deciding positions first / middle / last, nesting depths, digit counts), and where the property has them far ladders (operand / element counts around 2^15 .. 2^17, nesting depths 128 .. 5000 on a thread with a 1 GiB stack, literals of 8 192 .. 70 000 digits, results beyond 16 MiB).",
              ["c04.model", "c04.leak", "c04.substitution"], cells=["channel:var-default-computed:value", "channel:some-computed:value", "channel:all-computed:value", "channel:reduce-accumulator:value", "substitution:cat", "substitution:<"]),
-    "C05": P("operand lists for if / ?: / and / or: all lists of length 0..3 (quick) / 0..4 (thorough) over a 10-symbol alphabet (falsy and corner-truthy literals, data references, always-erroring poisons, uniquely numbered logging probes of either truthiness), random lists of length 4..7 with nested control flow; 4 data values. The value, Ok/Err and the captured log trace (which probes fired, in which order, how often) are judged against the reference model; ?: must equal if in outcome and trace; and / or must return one of the operand values. Non-trivial = the list holds a poison or a probe; distinct by (rule, data) text. Every run ends with a size ladder: the same monitors at sizes 6..5000 around powers of two (operand counts, collection / string / key-list lengths, deciding positions first / middle / last, nesting depths, digit counts).",
+    "C05": P("operand lists for if / ?: / and / or: all lists of length 0..3 (quick) / 0..4 (thorough) over a 10-symbol alphabet (falsy and corner-truthy literals, data references, always-erroring poisons, uniquely numbered logging probes of either truthiness), random lists of length 4..7 with nested control flow; 4 data values. The value, Ok/Err and the captured log trace (which probes fired, in which order, how often) are judged against the reference model; ?: must equal if in outcome and trace; and / or must return one of the operand values. Non-trivial = the list holds a poison or a probe; distinct by (rule, data) text. Every run ends with a size ladder: the same monitors at sizes 6..5000 around powers of two (operand counts, collection / string / key-list lengths, deciding positions first / middle / last, nesting depths, digit counts), and where the property has them far ladders (operand / element counts around 2^15 .. 2^17, nesting depths 128 .. 5000 on a thread with a 1 GiB stack, literals of 8 192 .. 70 000 digits, results beyond 16 MiB).",
              ["c05.model", "c05.alias", "c05.value-not-boolean"], cells=["if:n=3:value", "if:n=0:value", "?::n=2:value", "and:n=3:value", "or:n=3:err"]),
-    "C11": P("var against 10 fixed hostile trees and seeded random trees (keys with dots, backslashes, digits, empty, non-ASCII, index-like): for every node its derived (escaped) path must resolve to exactly that node, with and without a default (present - even null - wins), through a computed key; perturbed paths (changed segment, out-of-range and 64-bit extreme indices); every index -len-2..len+1 at every array / string node as integer key and as path segment; 53 key spellings; frame law (mutating subtrees off the path does not change the result). Judged against the path-resolution model and model-free laws. Non-trivial = path of >= 2 segments, an escaped character, a negative / boundary index, a multi-byte string index or a null-valued target; distinct by (rule, data) text. Every run ends with a size ladder: the same monitors at sizes 6..5000 around powers of two (operand counts, collection / string / key-list lengths, deciding positions first / middle / last, nesting depths, digit counts).",
+    "C11": P("var against 10 fixed hostile trees and seeded random trees (keys with dots, backslashes, digits, empty, non-ASCII, index-like): for every node its derived (escaped) path must resolve to exactly that node, with and without a default (present - even null - wins), through a computed key; perturbed paths (changed segment, out-of-range and 64-bit extreme indices); every index -len-2..len+1 at every array / string node as integer key and as path segment; 53 key spellings; frame law (mutating subtrees off the path does not change the result). Judged against the path-resolution model and model-free laws. Non-trivial = path of >= 2 segments, an escaped character, a negative / boundary index, a multi-byte string index or a null-valued target; distinct by (rule, data) text. Every run ends with a size ladder: the same monitors at sizes 6..5000 around powers of two (operand counts, collection / string / key-list lengths, deciding positions first / middle / last, nesting depths, digit counts), and where the property has them far ladders (operand / element counts around 2^15 .. 2^17, nesting depths 128 .. 5000 on a thread with a 1 GiB stack, literals of 8 192 .. 70 000 digits, results beyond 16 MiB).",
              ["c11.model", "c11.derived-path", "c11.default", "c11.frame", "c11.whole-data"], cells=["var:derived-path:value", "var:integer-key:value", "var:index-segment:value", "var:perturbed:value", "var:integer-key-extreme:value"]),
-    "C12": P("6 data trees (null-valued, empty-valued, nested, array, scalar data) x all key lists of length <= 2 and duplicate patterns (aba, aa, baab) over a 20-key pool (dotted, integer, negative index, null, empty, escaped) x thresholds 0..4 x 5 ways of supplying the list (operands, first-operand array, array followed by further operands, merge result, read from data); random trees and key lists of length 0..6. missing is judged against the model and against the implementation's own var (sentinel default); missing_some against the model and three laws (an absent key never counts as present; enough present keys give []; a non-empty result is the distinct missing keys in order). Non-trivial = a duplicate, a null key, a null-valued present key, or a threshold outside {1, 2}; distinct by (rule, data) text. Every run ends with a size ladder: the same monitors at sizes 6..5000 around powers of two (operand counts, collection / string / key-list lengths, deciding positions first / middle / last, nesting depths, digit counts).",
+    "C12": P("6 data trees (null-valued, empty-valued, nested, array, scalar data) x all key lists of length <= 2 and duplicate patterns (aba, aa, baab) over a 20-key pool (dotted, integer, negative index, null, empty, escaped) x thresholds 0..4 x 5 ways of supplying the list (operands, first-operand array, array followed by further operands, merge result, read from data); random trees and key lists of length 0..6. missing is judged against the model and against the implementation's own var (sentinel default); missing_some against the model and three laws (an absent key never counts as present; enough present keys give []; a non-empty result is the distinct missing keys in order). Non-trivial = a duplicate, a null key, a null-valued present key, or a threshold outside {1, 2}; distinct by (rule, data) text. Every run ends with a size ladder: the same monitors at sizes 6..5000 around powers of two (operand counts, collection / string / key-list lengths, deciding positions first / middle / last, nesting depths, digit counts), and where the property has them far ladders (operand / element counts around 2^15 .. 2^17, nesting depths 128 .. 5000 on a thread with a 1 GiB stack, literals of 8 192 .. 70 000 digits, results beyond 16 MiB).",
              ["c12.missing.model", "c12.missing.var-agreement", "c12.missing_some.model", "c12.missing_some.laws"], cells=["missing:duplicate-keys", "missing:null-key", "missing:null-valued-present-key", "missing_some:duplicate-keys", "missing_some:need=0:met", "missing_some:need=3:not-met"]),
-    "C13": P("25 collections (literal and computed arrays incl. corner-truthiness elements, null, absent, nested results of map / filter / merge; strings, numbers, objects as non-collections) x 16 element expressions for map and filter (identity, scoped var, outer-data probes, nested map / reduce, logging, erroring); 20 collections x 14 fold expressions (non-commutative cat / - / merge, whole-context, outer-data probes) x 9 initial values for reduce; probe workloads counting evaluations per element; random nesting. Judged against the reference model (value + log trace), map length preservation and filter-subsequence identity. Non-trivial = every case; distinct by (rule, data) text. Every run ends with a size ladder: the same monitors at sizes 6..5000 around powers of two (operand counts, collection / string / key-list lengths, deciding positions first / middle / last, nesting depths, digit counts).",
+    "C13": P("25 collections (literal and computed arrays incl. corner-truthiness elements, null, absent, nested results of map / filter / merge; strings, numbers, objects as non-collections) x 16 element expressions for map and filter (identity, scoped var, outer-data probes, nested map / reduce, logging, erroring); 20 collections x 14 fold expressions (non-commutative cat / - / merge, whole-context, outer-data probes) x 9 initial values for reduce; probe workloads counting evaluations per element; random nesting. Judged against the reference model (value + log trace), map length preservation and filter-subsequence identity. Non-trivial = every case; distinct by (rule, data) text. Every run ends with a size ladder: the same monitors at sizes 6..5000 around powers of two (operand counts, collection / string / key-list lengths, deciding positions first / middle / last, nesting depths, digit counts), and where the property has them far ladders (operand / element counts around 2^15 .. 2^17, nesting depths 128 .. 5000 on a thread with a 1 GiB stack, literals of 8 192 .. 70 000 digits, results beyond 16 MiB).",
              ["c13.model", "c13.map-length", "c13.filter-subsequence"], cells=["map:value", "map:err", "filter:value", "reduce:value", "reduce:err"]),
-    "C14": P("30 collections (empty / null / empty-string literal and computed, literal arrays of expressions, computed arrays incl. operation-shaped data, multi-byte strings literal and computed, non-collections, literal arrays with probes and poisons after the deciding element) x 14 predicates x {all, some, none}; all strings of length 0..3 over the multi-byte alphabet; random. Judged against the reference model (value, short-circuit via the log trace), none = not some, all(p) = none(not p) on non-empty input, one element per character. Non-trivial = every case; distinct by (rule, data) text. Every run ends with a size ladder: the same monitors at sizes 6..5000 around powers of two (operand counts, collection / string / key-list lengths, deciding positions first / middle / last, nesting depths, digit counts).",
+    "C14": P("30 collections (empty / null / empty-string literal and computed, literal arrays of expressions, computed arrays incl. operation-shaped data, multi-byte strings literal and computed, non-collections, literal arrays with probes and poisons after the deciding element) x 14 predicates x {all, some, none}; all strings of length 0..3 over the multi-byte alphabet; random. Judged against the reference model (value, short-circuit via the log trace), none = not some, all(p) = none(not p) on non-empty input, one element per character. Non-trivial = every case; distinct by (rule, data) text. Every run ends with a size ladder: the same monitors at sizes 6..5000 around powers of two (operand counts, collection / string / key-list lengths, deciding positions first / middle / last, nesting depths, digit counts), and where the property has them far ladders (operand / element counts around 2^15 .. 2^17, nesting depths 128 .. 5000 on a thread with a 1 GiB stack, literals of 8 192 .. 70 000 digits, results beyond 16 MiB).",
              ["c14.model", "c14.none-is-not-some", "c14.all-none-duality", "c14.chars"], cells=["all:empty-computed:false", "none:null-literal:true", "some:multibyte-string-computed:true", "all:bad-literal:err", "all:literal-with-probes-and-poison-after-decider:false"]),
     "C18": P("(rule text, data text, supply form) triples: texts from the other properties' corpora (log rules, erroring rules, big / small numbers, non-ASCII, escapes, strings with newlines, pretty-printed variants), invalid texts on either side (36 malformed forms, 1e400, duplicate keys), nesting at and beyond the recursion limit (127, 128, 129 ... 200 000 levels), three ways of supplying the data (argument, stdin, '-'); debug and release binaries. Each invocation's exit status and stdout are compared with the library reached as a separate process (log lines, then exactly one result line; on failure only the log lines and a non-zero status); chain law on log-free first stages. Non-trivial = the rule is an operation or an input is invalid; distinct by (rule, data, form).",
              ["c18.faithful", "c18.chain", "c18.tty-stdin", "c18.write-failure", "c18.environment-independence", "c01.cli"], inproc={"quick": [], "thorough": []}, proc={"quick": [PL.cli_lane], "thorough": [PL.cli_lane]},
